@@ -422,72 +422,74 @@ end PSO.Raft
 
 namespace PSO.Raft
 
+theorem invL_timeout_core {N : Nat} {s : State} {n : Nat} {dsts : List Nat} (h : InvL N s) (he : InvE N s)
+    (hnN : n < N) (hrole : (s.nodes n).role ≠ .leader) :
+    InvL N { (setNode s n { (s.nodes n) with term := (s.nodes n).term + 1, votedFor := some n, votes := 1, role := .candidate }) with msgs := s.msgs ++ dsts.map (fun d => Msg.reqVote ((s.nodes n).term + 1) n d ((s.nodes n).log.length - 1) (lastTerm (s.nodes n).log)), g := { s.g with voted := upd2 s.g.voted ((s.nodes n).term + 1) n (some n) } } := by
+  have hlog : ∀ k, ((setNode s n { (s.nodes n) with term := (s.nodes n).term + 1, votedFor := some n, votes := 1, role := .candidate }).nodes k).log = (s.nodes k).log := by
+    intro k; by_cases hk : k = n
+    · subst hk; simp
+    · rw [setNode_nodes_ne _ _ hk]
+  have hterm : ∀ k, (s.nodes k).term ≤ ((setNode s n { (s.nodes n) with term := (s.nodes n).term + 1, votedFor := some n, votes := 1, role := .candidate }).nodes k).term := by
+    intro k; by_cases hk : k = n
+    · subst hk; simp
+    · rw [setNode_nodes_ne _ _ hk]
+  constructor
+  · intro k; show (((setNode s n _).nodes k).log)[0]? = _; rw [hlog]; exact h.log_sent k
+  · exact h.tl_zero
+  · exact h.tl_sent
+  · exact h.tl_ldr
+  · exact h.ldr_pos
+  · intro k hr
+    by_cases hk : k = n
+    · subst hk
+      simp only [setNode_nodes_self, setNode_g]
+      intro hl; have := he.ldr_le _ _ hl; omega
+    · simp only [setNode_nodes_ne _ _ hk, setNode_g] at hr ⊢; exact h.cand_not_ldr k hr
+  · exact h.tl_terms
+  · exact h.tl_l2
+  · intro k j hj
+    show Agree ((setNode s n _).nodes k).log _ j
+    have hj' : j < (s.nodes k).log.length := by rw [← hlog k]; exact hj
+    rw [hlog]; exact h.log_l2 k j hj'
+  · intro k e hmem
+    have hmem' : e ∈ (s.nodes k).log := by rw [← hlog k]; exact hmem
+    exact Nat.le_trans (h.log_terms k e hmem') (hterm k)
+  · intro k hr
+    by_cases hk : k = n
+    · subst hk; simp at hr
+    · simp only [setNode_nodes_ne _ _ hk, setNode_g] at hr ⊢; exact h.ldr_log k hr
+  · intro t l d p pt es c hmem
+    rcases List.mem_append.mp hmem with hmem | hmem
+    · exact h.msg_append t l d p pt es c hmem
+    · obtain ⟨d', _, hd⟩ := List.mem_map.mp hmem; cases hd
+  · intro t l d kk kt c pfx hmem
+    rcases List.mem_append.mp hmem with hmem | hmem
+    · exact h.msg_snap t l d kk kt c pfx hmem
+    · obtain ⟨d', _, hd⟩ := List.mem_map.mp hmem; cases hd
+  · intro t c d li lt hmem
+    rcases List.mem_append.mp hmem with hmem | hmem
+    · exact Nat.le_trans (h.msg_reqVote_le t c d li lt hmem) (hterm c)
+    · obtain ⟨d', _, hd⟩ := List.mem_map.mp hmem
+      injection hd with h1 h2 h3 h4 h5; subst h1 h2; simp
+  · intro t c d li lt hmem0 hr ht
+    have hmem1 := List.mem_append.mp hmem0
+    rcases hmem1 with hmem | hmem
+    · by_cases hk : c = n
+      · subst hk
+        have := h.msg_reqVote_le t c d li lt hmem
+        simp only [setNode_nodes_self] at ht; omega
+      · simp only [setNode_nodes_ne _ _ hk] at hr ht ⊢
+        exact h.msg_reqVote t c d li lt hmem hr ht
+    · obtain ⟨d', _, hd⟩ := List.mem_map.mp hmem
+      injection hd with h1 h2 h3 h4 h5; subst h1 h2 h4 h5; simp
+
 theorem invL_timeout {N s s' n dsts} (h : InvL N s) (he : InvE N s)
     (hs : step N s (.timeout n dsts) = some s') : InvL N s' := by
   simp only [step] at hs
   split at hs
   · rename_i hg
     have hecore := invE_timeout_core (dsts := dsts) he hg.1 hg.2.1
-    have hcore : InvL N { (setNode s n { (s.nodes n) with term := (s.nodes n).term + 1, votedFor := some n, votes := 1, role := .candidate }) with
-        msgs := s.msgs ++ dsts.map (fun d => Msg.reqVote ((s.nodes n).term + 1) n d ((s.nodes n).log.length - 1) (lastTerm (s.nodes n).log)),
-        g := { s.g with voted := upd2 s.g.voted ((s.nodes n).term + 1) n (some n) } } := by
-      have hlog : ∀ k, ((setNode s n { (s.nodes n) with term := (s.nodes n).term + 1, votedFor := some n, votes := 1, role := .candidate }).nodes k).log = (s.nodes k).log := by
-        intro k; by_cases hk : k = n
-        · subst hk; simp
-        · rw [setNode_nodes_ne _ _ hk]
-      have hterm : ∀ k, (s.nodes k).term ≤ ((setNode s n { (s.nodes n) with term := (s.nodes n).term + 1, votedFor := some n, votes := 1, role := .candidate }).nodes k).term := by
-        intro k; by_cases hk : k = n
-        · subst hk; simp
-        · rw [setNode_nodes_ne _ _ hk]
-      constructor
-      · intro k; show (((setNode s n _).nodes k).log)[0]? = _; rw [hlog]; exact h.log_sent k
-      · exact h.tl_zero
-      · exact h.tl_sent
-      · exact h.tl_ldr
-      · exact h.ldr_pos
-      · intro k hr
-        by_cases hk : k = n
-        · subst hk
-          simp only [setNode_nodes_self, setNode_g]
-          intro hl; have := he.ldr_le _ _ hl; omega
-        · simp only [setNode_nodes_ne _ _ hk, setNode_g] at hr ⊢; exact h.cand_not_ldr k hr
-      · exact h.tl_terms
-      · exact h.tl_l2
-      · intro k j hj
-        show Agree ((setNode s n _).nodes k).log _ j
-        have hj' : j < (s.nodes k).log.length := by rw [← hlog k]; exact hj
-        rw [hlog]; exact h.log_l2 k j hj'
-      · intro k e hmem
-        have hmem' : e ∈ (s.nodes k).log := by rw [← hlog k]; exact hmem
-        exact Nat.le_trans (h.log_terms k e hmem') (hterm k)
-      · intro k hr
-        by_cases hk : k = n
-        · subst hk; simp at hr
-        · simp only [setNode_nodes_ne _ _ hk, setNode_g] at hr ⊢; exact h.ldr_log k hr
-      · intro t l d p pt es c hmem
-        rcases List.mem_append.mp hmem with hmem | hmem
-        · exact h.msg_append t l d p pt es c hmem
-        · obtain ⟨d', _, hd⟩ := List.mem_map.mp hmem; cases hd
-      · intro t l d kk kt c pfx hmem
-        rcases List.mem_append.mp hmem with hmem | hmem
-        · exact h.msg_snap t l d kk kt c pfx hmem
-        · obtain ⟨d', _, hd⟩ := List.mem_map.mp hmem; cases hd
-      · intro t c d li lt hmem
-        rcases List.mem_append.mp hmem with hmem | hmem
-        · exact Nat.le_trans (h.msg_reqVote_le t c d li lt hmem) (hterm c)
-        · obtain ⟨d', _, hd⟩ := List.mem_map.mp hmem
-          injection hd with h1 h2 h3 h4 h5; subst h1 h2; simp
-      · intro t c d li lt hmem0 hr ht
-        have hmem1 := List.mem_append.mp hmem0
-        rcases hmem1 with hmem | hmem
-        · by_cases hk : c = n
-          · subst hk
-            have := h.msg_reqVote_le t c d li lt hmem
-            simp only [setNode_nodes_self] at ht; omega
-          · simp only [setNode_nodes_ne _ _ hk] at hr ht ⊢
-            exact h.msg_reqVote t c d li lt hmem hr ht
-        · obtain ⟨d', _, hd⟩ := List.mem_map.mp hmem
-          injection hd with h1 h2 h3 h4 h5; subst h1 h2 h4 h5; simp
+    have hcore := invL_timeout_core (dsts := dsts) h he hg.1 hg.2.1
     split at hs
     · rename_i hmaj
       injection hs with hs; subst hs
@@ -709,9 +711,6 @@ theorem invL_init (N : Nat) : InvL N init := by
 end PSO.Raft
 
 namespace PSO.Raft
-
-/-- `applied ≤ commit` on every node. -/
-def InvA (s : State) : Prop := ∀ n, (s.nodes n).applied ≤ (s.nodes n).commit
 
 theorem invA_setNode {s : State} {n : Nat} {ns : NodeSt} (h : InvA s) (hn : ns.applied ≤ ns.commit) :
     InvA (setNode s n ns) := by
